@@ -673,8 +673,9 @@ func InitAlertingService(getMyIds func() []int64) {
 			if alertDataObj != nil {
 				_, err = AddCronJob(alertDataObj)
 				if err != nil {
+					// one alert that cannot be scheduled must not keep the remaining alerts from being scheduled
 					log.Errorf("InitAlertingService: could not add a new CronJob corresponding to alert=%+v, err=%+v", alertDataObj.AlertName, err)
-					return
+					continue
 				}
 			}
 		}
